@@ -358,6 +358,36 @@ func runScenario(c *common.Ctx, idx int) error {
 			}
 		}
 	}
+	// role change: the primary, with pages in its own mount's page cache (and, in WAL mode, frames not
+	// yet checkpointed), is demoted; what an application on its mount then reads is still the image
+	// of the position it reports (LiteFS checkpoints on role change and must invalidate what it rewrites)
+	if pdb != nil && pdb.Pos().TXID > 0 {
+		s.owner++
+		_, _, _, _ = readAsApp(p, s.caches["p"], "db", 5000+s.owner) // fill the cache
+		p.Store.Demote()
+		deadline := time.Now().Add(3 * time.Second)
+		for p.Store.IsPrimary() && time.Now().Before(deadline) {
+			time.Sleep(time.Millisecond)
+		}
+		if !p.Store.IsPrimary() {
+			// role-change recovery checkpoints the WAL; readAsApp does not overlay WAL frames
+			walEmpty := false
+			for t := 0; t < 400 && !walEmpty; t++ {
+				fi, err := os.Stat(pdb.WALPath())
+				walEmpty = err != nil || fi.Size() == 0
+				if !walEmpty {
+					time.Sleep(5 * time.Millisecond)
+				}
+			}
+			s.logf("final: demote p (wal=%v, wal empty afterwards=%v)", h.WALMode, walEmpty)
+			if walEmpty {
+				s.checkReplica(p)
+				c.Distinct(fmt.Sprintf("demoted-primary-view:wal=%v", h.WALMode))
+			} else {
+				c.Count("demoted_primary_wal_not_checkpointed", 1)
+			}
+		}
+	}
 	// replica timelines as correspondence cases (Model/PageDB.v: OOpen / OReceive)
 	time.Sleep(30 * time.Millisecond)
 	cf := c.Cases("cases_c01", hist.CoqHeader, hist.CoqType, "mismatches_short")
